@@ -1109,6 +1109,45 @@ def gen_c12p(seed, count):
 PYGEN['py_c12p'] = gen_c12p
 
 
+def gen_c11d(seed, count):
+    """faults inside disconnect(): its DISCONNECT is written straight to the transport, so a write that fails, returns
+    Ok(0) or is cut short (and a flush that fails) must still leave the handle dead; afterwards every kind of call is made"""
+    out = []
+    for idx in range(count):
+        r = random.Random((seed << 20) ^ idx ^ 0xC11D)
+        c = Case(rx=64, tx=256, ka=0)
+        c.connect(connack(0, 0, []))
+        script = [(0, 1000)] * 5
+        for j in range(r.randint(0, 2)):
+            c.publish(b'a', bytes([48 + j]), qos=r.choice([0, 1]))
+            script += [(0, 1000), (0, 1000)]
+        if r.random() < 0.5:
+            c.disconnect()
+        else:
+            c.disconnect(reason=r.choice([0, 4, 0x80]))
+        script += r.choice([[(2, 0)], [(1, 0)], [(0, 1), (2, 0)], [(0, 1), (1, 0)], [(0, 1000), (1, 0)], [(0, 1), (0, 1), (2, 0)]])
+        for _ in range(r.randint(1, 4)):
+            x = r.random()
+            if x < 0.25:
+                c.publish(b'b', b'x', qos=r.choice([0, 1]))
+            elif x < 0.45:
+                c.poll()
+            elif x < 0.6:
+                c.drive()
+            elif x < 0.75:
+                c.subscribe(((b'f', 0),))
+            elif x < 0.9:
+                c.disconnect()
+            else:
+                c.unsubscribe((b'f',))
+        c.ev(*script)
+        out.append(c.line())
+    return out
+
+
+PYGEN['py_c11d'] = gen_c11d
+
+
 def gen_c06(seed, count):
     """flow control against a small Receive Maximum: the window is filled with QoS 1 / QoS 2 publishes, subscribes and
     unsubscribes are acknowledged in between (their acknowledgements must not open the window), publish
